@@ -352,7 +352,7 @@ Section Sessions.
     pose proof (migrate_stamps_view ss d Hi Hr Hne Hemp) as Hv.
     destruct (migrate ss (mkconn d None)) as [c tr]. simpl in *.
     eexists. split; [reflexivity|].
-    pose proof (ops_commit_disk ops c Hc) as H. unfold sr in H. inversion H as [[H1 H2]].
+    pose proof (ops_commit_disk ops c Hc) as H. unfold sr in H. injection H as H1 H2.
     split; [rewrite H2; exact Hv | exact H1].
   Qed.
 
@@ -376,7 +376,7 @@ Section Sessions.
     rewrite (set_revision_empty _ c2 He). simpl. split.
     - rewrite stmts_of_app. rewrite run_stmts_trace. simpl. rewrite app_nil_r. reflexivity.
     - eexists. split; [reflexivity|].
-      destruct (ops_disk_cases ops (dml (fun d0 => d0) c2)) as [H|H]; unfold sr in H; inversion H as [[H1 H2]]; rewrite H2.
+      destruct (ops_disk_cases ops (dml (fun d0 => d0) c2)) as [H|H]; unfold sr in H; injection H as H1 H2; rewrite H2.
       + simpl. rewrite Hd. exact Hs.
       + simpl. exact He.
   Qed.
